@@ -26,6 +26,7 @@ import (
 	"os"
 	"os/exec"
 	"runtime"
+	"sort"
 	"strconv"
 	"strings"
 	"sync"
@@ -166,11 +167,65 @@ const (
 )
 
 type out struct {
-	f *os.File
+	f   *os.File
+	bad bool // the running case has a HANG observation or did not reach quiescence
 }
 
 func (o *out) line(format string, a ...any) { fmt.Fprintf(o.f, format+"\n", a...) }
-func (o *out) op(op, obs string)            { o.line("%s => %s", op, obs) }
+func (o *out) op(op, obs string) {
+	if strings.HasPrefix(obs, "HANG") {
+		o.bad = true
+	}
+	o.line("%s => %s", op, obs)
+}
+
+// blockedIn names what the goroutines of the package under test are parked in, other than a
+// `select` (the resting state of the handler and of every forwarder): for each goroutine its
+// innermost blockntfns function and the runtime's wait reason.  Appended to a HANG observation so
+// that the report names the call that hangs and the statement that keeps it hanging.
+func blockedIn() string {
+	buf := make([]byte, 1<<20)
+	buf = buf[:runtime.Stack(buf, true)]
+	seen := map[string]bool{}
+	var found []string
+	for _, g := range strings.Split(string(buf), "\n\n") {
+		lines := strings.Split(g, "\n")
+		if len(lines) < 2 {
+			continue
+		}
+		state := lines[0]
+		if i, j := strings.Index(state, "["), strings.Index(state, "]"); i >= 0 && j > i {
+			state = state[i+1 : j]
+		}
+		if i := strings.Index(state, ","); i >= 0 {
+			state = state[:i]
+		}
+		if state == "select" || state == "running" || state == "runnable" || state == "sleep" {
+			continue
+		}
+		for _, fn := range lines[1:] {
+			i := strings.Index(fn, "neutrino/blockntfns.")
+			if i < 0 || strings.HasPrefix(fn, "\t") {
+				continue
+			}
+			name := fn[i+len("neutrino/"):]
+			if j := strings.LastIndex(name, "("); j > 0 {
+				name = name[:j]
+			}
+			k := name + " [" + state + "]"
+			if !seen[k] {
+				seen[k] = true
+				found = append(found, k)
+			}
+			break
+		}
+	}
+	if len(found) == 0 {
+		return ""
+	}
+	sort.Strings(found)
+	return " blocked: " + strings.Join(found, "; ")
+}
 func (o *out) hit(k string)                 { o.line("#hit %s", k) }
 
 type subscriber struct {
@@ -247,7 +302,7 @@ func guard(f func()) string {
 	case r := <-res:
 		return r
 	case <-time.After(opTimeout):
-		return "HANG"
+		return "HANG" + blockedIn()
 	}
 }
 
@@ -496,7 +551,7 @@ func (w *world) subEnd() {
 	select {
 	case r = <-win.res:
 	case <-time.After(opTimeout):
-		r = "HANG"
+		r = "HANG" + blockedIn()
 	}
 	if r != "" {
 		w.o.op(opText, r)
@@ -544,7 +599,7 @@ func (w *world) emit(e ev, det bool) {
 		w.o.op("emit "+e.String(), "ok")
 		w.o.hit("emit.ok")
 	case <-time.After(opTimeout):
-		w.o.op("emit "+e.String(), "HANG")
+		w.o.op("emit "+e.String(), "HANG"+blockedIn())
 		w.stalled = true
 		return
 	}
@@ -695,6 +750,163 @@ func (w *world) stop() {
 		w.o.hit("stop.again")
 	}
 	w.stopped = true
+}
+
+
+// stopInWindow: Stop is called while a registration is in flight (NewSubscription has handed its
+// request to the handler, which is parked inside the backlog lookup).  The caller of
+// NewSubscription gives up (m.quit is closed); then the lookup returns and the handler finishes a
+// registration nobody waits for any more.  Whatever the handler still owes that caller, it must
+// not wait for it: Stop returns, every other subscriber's channel gets closed.
+func (w *world) stopInWindow() {
+	win := w.win
+	w.win = nil
+	stopRes := make(chan string, 1)
+	go func() {
+		defer func() {
+			if r := recover(); r != nil {
+				stopRes <- fmt.Sprintf("PANIC %v", r)
+			}
+		}()
+		w.m.Stop()
+		stopRes <- "ok"
+	}()
+	w.o.op("stopbegin", "started")
+	w.o.hit("window.stop")
+	// the registrant leaves
+	show := func(r string) string {
+		if r == "" {
+			return "registered"
+		}
+		return r
+	}
+	gave := ""
+	select {
+	case r := <-win.res:
+		gave = show(r)
+	case <-time.After(opTimeout):
+		gave = "waiting" // it insists on the handler's answer: legitimate, the answer comes after the lookup
+	}
+	w.o.op(fmt.Sprintf("subgiveup %d", win.sub.id), gave)
+	close(win.gate)
+	if gave == "waiting" {
+		select {
+		case r := <-win.res:
+			w.o.op(fmt.Sprintf("subanswer %d", win.sub.id), show(r))
+		case <-time.After(opTimeout):
+			w.o.op(fmt.Sprintf("subanswer %d", win.sub.id), "HANG"+blockedIn())
+			w.stalled = true
+		}
+	}
+	select {
+	case r := <-stopRes:
+		w.o.op("stopend", r)
+	case <-time.After(opTimeout):
+		w.o.op("stopend", "HANG"+blockedIn())
+		w.stalled = true
+	}
+	close(win.quit)
+	for _, s := range w.subs {
+		if s.s != nil && !s.ended {
+			s.ended = true
+			s.pending = len(s.s.Notifications)
+		}
+	}
+	w.stopped = true
+}
+
+// winStopCase: bystanders with notifications pending in channel and queue, then a registration
+// (with or without backlog) that is overtaken by Stop while the handler is inside the lookup.
+func winStopCase(o *out, idx int, r *rand.Rand) {
+	tip := uint32(1 + r.Intn(40))
+	o.line("case %d det winstop tip %d", idx, tip)
+	w := newWorld(o, tip, true)
+	for n := r.Intn(3); n > 0 && !w.stalled; n-- {
+		w.subscribe(uint32(r.Intn(int(tip)+1)), false)
+	}
+	for n := r.Intn(30); n > 0 && !w.stalled; n-- {
+		w.emit(w.nextEv(r), true)
+	}
+	for _, s := range w.liveSubs() {
+		if s.pending > 0 && r.Intn(2) == 0 && !w.stalled {
+			w.read(s, 1+r.Intn(s.pending))
+		}
+	}
+	h := uint32(0)
+	if r.Intn(4) != 0 {
+		h = 1 + uint32(r.Intn(int(w.tip)))
+	}
+	if !w.stalled && w.subBegin(h) {
+		w.stopInWindow()
+	}
+	w.finish(false)
+}
+
+// slowCase: one subscriber never reads (another one reads a little now and then) while `total`
+// notifications arrive, far more than any buffer or plausible limit in the manager; then it reads:
+// it is owed every single one, in order.  A third subscriber reads as the notifications come.
+func slowCase(o *out, idx int, total int, r *rand.Rand, kind string) {
+	o.line("case %d det %s tip 0", idx, kind)
+	w := newWorld(o, 0, true)
+	never := w.subscribe(0, false)
+	fast := w.subscribe(0, false)
+	var lag *subscriber
+	if r == nil || r.Intn(2) == 0 {
+		lag = w.subscribe(0, false)
+	}
+	o.hit("slow.case")
+	step := 50
+	for done := 0; done < total && !w.stalled; {
+		n := step
+		if total-done < n {
+			n = total - done
+		}
+		for i := 0; i < n && !w.stalled; i++ {
+			// long runs of connected blocks with a rare one-block reorganisation
+			if r != nil && w.tip > 1 && r.Intn(200) == 0 {
+				w.emit(w.fresh(false, w.tip), true)
+			} else {
+				w.emit(w.fresh(true, w.tip+1), true)
+			}
+		}
+		done += n
+		if !w.stalled {
+			w.read(fast, fast.pending)
+		}
+		if lag != nil && !w.stalled {
+			k := 5
+			if r != nil {
+				k = r.Intn(12)
+			}
+			if k > 0 {
+				w.read(lag, k)
+			}
+		}
+	}
+	if never.s != nil && !w.stalled {
+		if never.pending > 2000 {
+			o.hit("slow.behind>2000")
+		}
+		if never.pending > 4000 {
+			o.hit("slow.behind>4000")
+		}
+		w.o.op("len 1", strconv.Itoa(len(never.s.Notifications)))
+		w.read(never, never.pending)
+		w.poll(never)
+	}
+	if lag != nil && lag.s != nil && !w.stalled {
+		w.read(lag, lag.pending)
+	}
+	// everybody is still subscribed
+	for i := 0; i < 3 && !w.stalled; i++ {
+		w.emit(w.fresh(true, w.tip+1), true)
+	}
+	for _, s := range w.liveSubs() {
+		if !w.stalled && !s.ended && s.pending > 0 {
+			w.read(s, s.pending)
+		}
+	}
+	w.finish(false)
 }
 
 // ---------------------------------------------------------------------------
@@ -860,7 +1072,7 @@ func detCase(o *out, idx int, r *rand.Rand, thorough bool) {
 func (w *world) finish(firstStalls bool) {
 	o := w.o
 	if w.stalled {
-		stalledCases++
+		o.bad = true
 		o.hit("case.stalled")
 		// is the handler goroutine still serving?  (a handler stuck inside a
 		// cancel() starves every subscriber: the emit is never taken => HANG)
@@ -884,18 +1096,23 @@ func (w *world) finish(firstStalls bool) {
 	}
 }
 
-var stalledCases int
-
 // ---------------------------------------------------------------------------
 // deterministic probes: fixed scenarios, run first on every run
 
 var probeNames = []string{"window-basic", "window-many", "window-empty-backlog", "window-reorg",
-	"window-two", "stall-beyond-buffers", "cancel-during-backlog", "stop-pending", "slow-then-cancel"}
+	"window-two", "stall-beyond-buffers", "cancel-during-backlog", "stop-pending", "slow-then-cancel",
+	"window-stop", "window-stop-bystander", "slow-reader-thousands"}
 
 func probeCase(o *out, idx int) {
 	name := probeNames[idx]
+	if name == "slow-reader-thousands" {
+		o.hit("probe." + name)
+		slowCase(o, idx, 5000, nil, "probe-"+name)
+		return
+	}
 	tip := map[string]uint32{"window-basic": 5, "window-many": 30, "window-empty-backlog": 4, "window-reorg": 6,
-		"window-two": 9, "stall-beyond-buffers": 0, "cancel-during-backlog": 50, "stop-pending": 3, "slow-then-cancel": 0}[name]
+		"window-two": 9, "stall-beyond-buffers": 0, "cancel-during-backlog": 50, "stop-pending": 3, "slow-then-cancel": 0,
+		"window-stop": 6, "window-stop-bystander": 30}[name]
 	o.line("case %d det probe-%s tip %d", idx, name, tip)
 	o.hit("probe." + name)
 	w := newWorld(o, tip, true)
@@ -1017,6 +1234,18 @@ func probeCase(o *out, idx int) {
 		w.subscribe(1, false)
 		w.subscribe(0, false)
 		conn(30)
+	case "window-stop":
+		// Stop overtakes a registration (backlog c4 c5 c6) that is inside the lookup
+		if w.subBegin(3) {
+			w.stopInWindow()
+		}
+	case "window-stop-bystander":
+		// the same with a bystander that is a channel and a half behind
+		w.subscribe(0, false)
+		conn(30)
+		if !w.stalled && w.subBegin(2) {
+			w.stopInWindow()
+		}
 	}
 	w.finish(false)
 }
@@ -1391,7 +1620,7 @@ func regStopCase(o *out, idx int, r *rand.Rand) {
 	opText := fmt.Sprintf("sub %d %d %s", id, h, evList(bl))
 	switch {
 	case !okSub:
-		o.op(opText, "HANG")
+		o.op(opText, "HANG"+blockedIn())
 	case err == blockntfns.ErrSubscriptionManagerStopped:
 		o.op(opText, "stopped")
 		o.hit("regstop.stopped")
@@ -1404,7 +1633,7 @@ func regStopCase(o *out, idx int, r *rand.Rand) {
 	if okStop {
 		o.op("stop", "ok")
 	} else {
-		o.op("stop", "HANG")
+		o.op("stop", "HANG"+blockedIn())
 	}
 	drain := func(s *subscriber) {
 		var got []string
@@ -1454,6 +1683,11 @@ func child(_ *tr.W, thorough bool) {
 	}
 	defer f.Close()
 	o := &out{f: f}
+	badCases, t0 := 0, time.Now()
+	budget := 100 * time.Second
+	if thorough {
+		budget = 12 * time.Minute
+	}
 	for idx := from; idx < to; idx++ {
 		r := caseRng(idx)
 		if idx >= tr.EnvInt("SUBS_N", 1<<30)+tr.EnvInt("SUBS_RS", 0) {
@@ -1462,14 +1696,29 @@ func child(_ *tr.W, thorough bool) {
 			regStopCase(o, idx, r)
 		} else if idx < len(probeNames) {
 			probeCase(o, idx)
+		} else if idx%15 == 7 {
+			winStopCase(o, idx, r)
+		} else if idx%450 == 40 {
+			// one per quick run (the fixed probe has 5000), one per 450 cases in a thorough run
+			slowCase(o, idx, 2100+r.Intn(1500), r, "slow")
 		} else if idx%3 == 2 {
 			freeCase(o, idx, r, thorough)
 		} else {
 			detCase(o, idx, r, thorough)
 		}
 		o.line("#end %d", idx)
-		if stalledCases >= 4 {
-			o.line("# giving up: %d cases did not reach quiescence", stalledCases)
+		if o.bad {
+			badCases++
+			o.bad = false
+		}
+		// every wait of a case is bounded, and so is their number: a handful of cases that
+		// ran into watchdogs say all there is to say
+		if badCases >= 4 {
+			o.line("# giving up: %d cases hung or did not reach quiescence", badCases)
+			break
+		}
+		if time.Since(t0) > budget {
+			o.line("# giving up at case %d: time budget of the run used up", idx)
 			break
 		}
 	}
@@ -1519,7 +1768,7 @@ func parent(t *tr.W, thorough bool) {
 		go func() { done <- cmd.Wait() }()
 		var werr error
 		killed := false
-		limit := 5 * time.Minute
+		limit := 150 * time.Second
 		if thorough {
 			limit = 14 * time.Minute
 		}
